@@ -382,12 +382,7 @@ theorem Grows_applyInsertion (s : Sess) (spans : List OSpan) (start : Nat) (newT
     Grows s (applyInsertion s spans start newText comment).1 := by
   unfold applyInsertion
   simp only
-  have hr1 : ∀ (c : Bool), Grows s (if c then
-      ((insertionAnchor s spans start).1, (insertionAnchor s spans start).2, false)
-      else insertionPoint s spans start).1 := by
-    intro c; cases c
-    · exact Grows_of_frame (insertionPoint_frame s spans start)
-    · exact Grows_of_frame (insertionAnchor_frame s spans start)
+  have hr1 : ∀ bl, Grows s (chooseAnchor s spans start bl).1 := fun bl => Grows_of_frame (chooseAnchor_frame s spans start bl)
   split
   · exact hr1 _
   · split
